@@ -191,7 +191,10 @@ class Parser:
                     if self.peek() != "}": self.expect(";")
                     stmts.append(("assign", e, None if op == "=" else op[:-1], r, ln))
                 elif self.accept(";"):
-                    stmts.append(("expr", e, ln))
+                    if e[0] == "mcall" and e[2] == "for_each": stmts.append(self.desugar_for_each(e, ln))
+                    else: stmts.append(("expr", e, ln))
+                elif self.peek() == "}" and e[0] == "mcall" and e[2] == "for_each":
+                    stmts.append(self.desugar_for_each(e, ln))          # unit-valued: a statement
                 elif self.peek() == "}":
                     tail = e
                 elif e[0] in ("if", "blockexpr"):
@@ -203,9 +206,14 @@ class Parser:
     # ---- expressions
     def expr(self, nostruct=False):
         if nostruct: return self.with_ns(True, lambda: self.expr())
+        if self.kind() == "p" and self.peek() == "..":          # `..hi`: from the start
+            self.next()
+            if self.peek() in ("]", ")", ",", ";"): self.fail("unbounded range `..`")
+            return ("range", ("num", 0, None), self.binexpr(0), False)
         e = self.binexpr(0)
         if self.peek() in ("..", "..="):
             incl = self.next() == "..="
+            if self.peek() in ("]", ")", ",", ";"): self.fail("range without an upper bound")
             hi = self.binexpr(0)
             return ("range", e, hi, incl)
         return e
@@ -322,17 +330,92 @@ class Parser:
 
 
     def closure(self):
-        """`|x: T, y: U| body` (typed parameters only, no `move`); body = block or expression"""
+        """`|x: T, y: U| body` (typed parameters, no `move`); body = block or expression.  Iterator adaptors (`for_each`) also take
+        untyped parameters and one flat tuple pattern: `|c| ..`, `|(r, c)| ..`, `|(r, &c)| ..` (parameter type None / pattern); their body
+        may be a single assignment `*r = e`"""
         self.expect("|"); params = []
+        def pat():
+            if self.accept("&"):
+                if self.peek() == "mut": self.fail("`&mut` closure pattern")
+                return ("refpat", self.ident())
+            return ("idpat", self.ident())
         while not self.accept("|"):
-            pn = self.ident()
-            if not self.accept(":"): self.fail("closure parameter without a type")
-            params.append((pn, self.ty()))
+            if self.peek() == "(" and self.kind() == "p":
+                self.next(); els = []
+                while not self.accept(")"):
+                    if self.peek() == "(": self.fail("nested tuple pattern in a closure parameter")
+                    els.append(pat())
+                    if not self.accept(","): self.expect(")"); break
+                params.append((("tuplepat", els), None))
+            elif self.peek() == "&" and self.kind() == "p":
+                params.append((pat(), None))
+            else:
+                pn = self.ident()
+                if self.accept(":"): params.append((pn, self.ty()))
+                else: params.append((("idpat", pn), None))
             if not self.accept(","): self.expect("|"); break
         if self.peek() == "->": self.fail("closure with a declared return type")
         if self.peek() == "{": body = self.block()
-        else: body = ([], self.expr())
+        else:
+            ln = self.line()
+            e = self.expr()
+            if self.peek() in ASSIGN_OPS and self.kind() == "p":
+                op = self.next(); r = self.expr()
+                body = ([("assign", e, None if op == "=" else op[:-1], r, ln)], None)
+            else: body = ([], e)
         return ("closure", params, body)
+
+    def desugar_for_each(self, e, ln):
+        """`X.iter_mut().for_each(|c| body)`, `X.iter_mut().zip(Y.iter()).for_each(|(r, c)| body)`, `Y.iter().zip(X.iter_mut()).for_each(|(&c, r)| body)`
+        (X, Y slice variables) as the index loop `for i in 0..len { body[*r := X[i], c / *c := Y[i]] }`, len = X.len() resp.
+        min(X.len(), Y.len()) (`zip` stops at the shorter side).  A pattern variable `r` is a reference (only `*r` may occur), `&c` a value."""
+        recv, args = strip_paren(e[1]), e[3]
+        if len(args) != 1 or strip_paren(args[0])[0] != "closure": self.fail("for_each without a closure literal")
+        clo = strip_paren(args[0])
+        if len(clo[1]) != 1 or clo[1][0][1] is not None: self.fail("for_each closure: one untyped parameter / pattern expected")
+        pat = clo[1][0][0]
+        def side(x):
+            x = strip_paren(x)
+            if x[0] == "mcall" and x[2] in ("iter", "iter_mut") and not x[3] and strip_paren(x[1])[0] == "path" and len(strip_paren(x[1])[1]) == 1:
+                return (strip_paren(x[1])[1][0], x[2] == "iter_mut")
+            self.fail("for_each on something that is not `x.iter()` / `x.iter_mut()` / a `zip` of two such")
+        if recv[0] == "mcall" and recv[2] == "zip" and len(recv[3]) == 1:
+            sides = [side(recv[1]), side(recv[3][0])]
+            if pat[0] != "tuplepat" or len(pat[1]) != 2: self.fail("for_each over a zip: the closure parameter must be a pair pattern")
+            pats = pat[1]
+            if sides[0][0] == sides[1][0]: self.fail("zip of a slice with itself")
+            hi = ("minlen", ("path", [sides[0][0]]), ("path", [sides[1][0]]))
+        else:
+            sides = [side(recv)]
+            if pat[0] not in ("idpat", "refpat"): self.fail("for_each closure parameter")
+            pats = [pat]
+            hi = ("mcall", ("path", [sides[0][0]]), "len", [])
+        self.nfe = getattr(self, "nfe", 0) + 1
+        ivar = f"it{self.nfe}_"
+        dmap = {}; vmap = {}
+        for (name, ismut), (pk, pn) in zip(sides, pats):
+            elem = ("index", ("path", [name]), ("path", [ivar]))
+            if pk == "idpat": dmap[pn] = elem
+            else:
+                if ismut: self.fail("`&x` pattern on an `iter_mut()` element")
+                vmap[pn] = elem
+        if set(dmap) & set(vmap) or len(dmap) + len(vmap) != len(pats): self.fail("for_each pattern binds a name twice")
+        def sub(x):
+            if isinstance(x, list): return [sub(y) for y in x]
+            if not isinstance(x, tuple) or not x: return x
+            if x[0] == "deref":
+                inner = strip_paren(x[1])
+                if inner[0] == "path" and len(inner[1]) == 1 and inner[1][0] in dmap: return dmap[inner[1][0]]
+            if x[0] == "path":
+                if len(x[1]) == 1 and x[1][0] in vmap: return vmap[x[1][0]]
+                if len(x[1]) == 1 and x[1][0] in dmap: self.fail(f"for_each: the element reference `{x[1][0]}` is used other than as `*{x[1][0]}`")
+                return x
+            if x[0] == "closure": self.fail("closure inside a for_each closure")
+            if x[0] == "let" and (x[1] in dmap or x[1] in vmap if isinstance(x[1], str) else set(x[1][1]) & (set(dmap) | set(vmap))): self.fail("for_each: `let` shadows a pattern variable")
+            return tuple(sub(y) if isinstance(y, (tuple, list)) else y for y in x)
+        body = (sub(clo[2][0]), None if clo[2][1] is None else sub(clo[2][1]))
+        if body[1] is not None: body = (body[0] + [("expr", body[1], ln)], None)     # a unit-valued expression body
+        return ("for", ivar, ("range", ("num", 0, None), hi, False), body, ln)
 
     def struct_lit(self, name):
         """`Name { f: e, g }` (field shorthand allowed; no `..base`)"""
@@ -602,6 +685,10 @@ def assigned(x, acc=None, declared=None):
         elif x[0] == "ref" and x[1]:
             r = lvalue_root(x[2])
             if r: acc.add(r)
+        elif x[0] == "mcall" and x[2] == "copy_from_slice":
+            r = lvalue_root(x[1])
+            if r: acc.add(r)
+            assigned(x[3], acc, declared)
         elif x[0] == "call":
             for a in x[2]:
                 assigned(a, acc, declared)
@@ -712,7 +799,7 @@ class FnLower:
         """bind the value of e to the Lean pattern/name `pat`"""
         e0 = strip_paren(e)
         if e0[0] == "if":
-            code, ty = self.if_value(e0, env)
+            code, ty = self.if_value(e0, env, ops)
             ops.append(("letcode", pat, code)); return ty
         r = self.ex_m(e, env, ops)
         if r[0] == "v": ops.append(("let", pat, unparen(r[1].atom))); return r[1].ty
@@ -798,6 +885,10 @@ class FnLower:
             if ty in self.tr.enums_lean: return ("v", Val(name, ("enum", self.tr.enums_lean[ty]), [name]))
             if ty in self.ABS_OBJ: return ("v", Val(name, self.ABS_OBJ[ty][1], [name]))
             self.fail(f"abstraction `{c}` of type {ty}")
+        if k == "minlen":
+            a, b = self.lookup(env, e[1][1][0]), self.lookup(env, e[2][1][0])
+            if a.kind != "list" or b.kind != "list": self.fail("zip of something that is not a slice variable")
+            return ("v", Val(f"(min {a.lean}.length {b.lean}.length)", "usize", [a.lean, b.lean]))
         if k == "float": self.fail(f"float literal {e[1]} outside an abstracted expression")
         if k == "structlit": return self.struct_lit(e, env, ops)
         if k == "match": return self.match_value(e, env, ops)
@@ -833,6 +924,9 @@ class FnLower:
             if b[0] == "path" and len(b[1]) == 1 and self.lookup(env, b[1][0]).kind in ("w", "mod", "struct", "mulop") and getattr(env[b[1][0]], "isref", False):
                 return self.ex_m(b, env, ops)             # `*r` of a shared reference parameter: the value
             self.fail("dereference of something that is not a reference parameter")
+        if k == "index" and strip_paren(e[2])[0] == "range":
+            t = self.slice_value(e, env, ops)
+            return ("v", Val(t, "list", [t]))
         if k == "index":
             b = strip_paren(e[1]); ix = strip_paren(e[2])
             if b[0] == "mcall" and b[2] == "const_ratio" and not b[3]:
@@ -889,10 +983,52 @@ class FnLower:
             for v in vals: deps |= v.deps
             return ("v", Val("(" + ", ".join(unparen(v.atom) for v in vals) + ")", ("tuple", [v.ty for v in vals]), deps, parts=[v.atom for v in vals]))
         if k == "if":
-            code, ty = self.if_value(e, env)
+            code, ty = self.if_value(e, env, ops)
             t = self.tmp(); ops.append(("letcode", t, code)); return ("v", Val(t, ty, [t]))
         if k == "ref" and not e[1]: return self.ex_m(e[2], env, ops)        # `&x` of a value: shared borrow = the value
         self.fail(f"expression form `{k}`")
+
+    def slice_bounds(self, e, env, ops):
+        """`x[lo..hi]` of a list variable: (variable, lo, hi) with the bounds evaluated in order (checked arithmetic)"""
+        b = strip_paren(e[1]); r = strip_paren(e[2])
+        if not (b[0] == "path" and len(b[1]) == 1 and self.lookup(env, b[1][0]).kind == "list"): self.fail("sub-slice of something that is not a slice variable")
+        if r[3]: self.fail("inclusive range as a slice index")
+        lo, hi = self.seq([lambda: self.ex(r[1], env, ops), lambda: self.ex(r[2], env, ops)], ops)
+        if lo.ty not in WORD or hi.ty not in WORD: self.fail(f"slice bounds of type {lo.ty}, {hi.ty}")
+        return env[b[1][0]], lo, hi
+
+    def slice_value(self, e, env, ops):
+        """`&x[lo..hi]` as a value: `sliceR x lo hi` (`.error .oob` unless lo <= hi <= len, as in Rust); returns the temporary's name"""
+        v, lo, hi = self.slice_bounds(e, env, ops)
+        t = self.tmp(); ops.append(("bind", t, f"sliceR {v.lean} {lo.atom} {hi.atom}")); self.monadic_used = True
+        return t
+
+    def list_arg(self, a, env, ops, what):
+        """a `&[u64]` argument: a slice variable or a checked sub-slice of one"""
+        a2 = strip_paren(a)
+        if a2[0] == "ref": a2 = strip_paren(a2[2])
+        if a2[0] == "index" and strip_paren(a2[2])[0] == "range":
+            t = self.slice_value(a2, env, ops); return Val(t, "list", [t])
+        if a2[0] == "path" and len(a2[1]) == 1 and self.lookup(env, a2[1][0]).kind == "list": return Val(env[a2[1][0]].lean, "list", [env[a2[1][0]].lean])
+        self.fail(f"{what}: slice argument")
+
+    def mlist_arg(self, a, env, ops, what):
+        """a `&mut [u64]` argument: a mutable slice variable (re-bound to the callee's result) or a sub-slice `&mut x[lo..hi]` of one
+        (checked like a read; the result is spliced back: a `&mut [u64]` cannot change its length).  Returns (input value, write-back)"""
+        a2 = strip_paren(a)
+        if a2[0] == "ref":
+            if not a2[1]: self.fail(f"{what}: `&` where `&mut` is needed")
+            a2 = strip_paren(a2[2])
+        if a2[0] == "index" and strip_paren(a2[2])[0] == "range":
+            v, lo, hi = self.slice_bounds(a2, env, ops)
+            if not v.mut: self.fail(f"{what}: `&mut` sub-slice of an immutable slice")
+            t = self.tmp(); ops.append(("bind", t, f"sliceR {v.lean} {lo.atom} {hi.atom}")); self.monadic_used = True
+            o = self.tmp()
+            return Val(t, "list", [t]), (o, lambda: ops.append(("let", v.lean, f"spliceR {v.lean} {lo.atom} {hi.atom} {o}")))
+        if a2[0] == "path" and len(a2[1]) == 1 and self.lookup(env, a2[1][0]).kind == "list" and env[a2[1][0]].mut:
+            v = env[a2[1][0]]
+            return Val(v.lean, "list", [v.lean]), (v.lean, lambda: None)
+        self.fail(f"{what}: `&mut [u64]` argument must be a mutable slice variable or a sub-slice of one")
 
     def struct_lit(self, e, env, ops):
         _, name, fields = e
@@ -959,6 +1095,8 @@ class FnLower:
             lean = env[recv[1][0]].lean
             if m == "value" and not args: return ("v", Val(f"{lean}.value", "u64", [lean]))
             if m == "bit_count" and not args: return ("v", Val(f"{lean}.bits", "usize", [lean]))
+            sig = self.tr.msigs.get(("Modulus", m))
+            if sig is not None: return self.call_sig(sig, f"Modulus::{m}", [recv] + list(args), env, ops)
             self.fail(f"Modulus method {m}()")
         if recv[0] == "path" and len(recv[1]) == 1 and recv[1][0] in env and env[recv[1][0]].kind in ("struct", "mulop"):
             v = env[recv[1][0]]; sname = v.ty if v.kind == "struct" else "MultiplyU64ModOperand"
@@ -1132,7 +1270,7 @@ class FnLower:
         self.fail(f"i64 operator `{op}`")
 
     # value of an `if` expression whose branches neither escape nor assign outer variables
-    def if_value(self, e, env):
+    def if_value(self, e, env, hoist=None):
         if e[3] is None: self.fail("`if` without `else` used as a value")
         if has_escape(e[2][0]) or has_escape(e[3][0]) or has_escape(e[2][1]) or has_escape(e[3][1]):
             self.fail("`return`/`break` inside an `if` used as a value")
@@ -1142,7 +1280,9 @@ class FnLower:
             if outer: self.fail(f"`if` used as a value assigns outer variables {sorted(outer)}")
         ops0 = []
         c = self.ex(e[1], env, ops0)
-        if ops0: self.fail("condition of a value-`if` needs statements")   # (kept simple; conditions here are comparisons)
+        if ops0:
+            if hoist is None: self.fail("condition of a value-`if` needs statements")
+            hoist.extend(ops0)          # the condition is evaluated first: its statements go in front of the `if`
         if c.ty != "bool": self.fail("`if` condition is not bool")
         tys = []
         def kv(env2, val, ops):
@@ -1287,10 +1427,19 @@ class FnLower:
                     if v.kind == "outarr" and not v.init[j]: self.fail(f"call to {fname}: reads `{v.rust}[{j}]` before assignment")
                     thunks.append(lambda n=v.lean[j]: Val(n, "u64", [n]))
             elif kind == "list":
+                thunks.append(lambda a=a: self.list_arg(a, env, ops, f"call to {fname}"))
+            elif kind == "mlist":
+                cell = {}
+                def th(a=a, cell=cell):
+                    v, wb = self.mlist_arg(a, env, ops, f"call to {fname}")
+                    cell["x"] = wb
+                    return v
+                thunks.append(th); outs.append(cell)
+            elif kind == "modlist":
                 a2 = strip_paren(a)
                 if a2[0] == "ref": a2 = strip_paren(a2[2])
-                if not (a2[0] == "path" and len(a2[1]) == 1 and self.lookup(env, a2[1][0]).kind == "list"): self.fail(f"call to {fname}: slice argument")
-                thunks.append(lambda a2=a2: Val(env[a2[1][0]].lean, "list"))
+                if not (a2[0] == "path" and len(a2[1]) == 1 and self.lookup(env, a2[1][0]).kind == "modlist"): self.fail(f"call to {fname}: `&[Modulus]` argument")
+                thunks.append(lambda a2=a2: Val(env[a2[1][0]].lean, "modlist", [env[a2[1][0]].lean]))
             elif kind == "out":
                 cell = {}
                 def th(a=a, p=p, cell=cell):      # evaluated in argument order (a `&mut list[i]` target does a bounds check there)
@@ -1417,6 +1566,16 @@ class FnLower2(FnLower):
             if e[0] == "blockexpr":
                 rest = K(lambda env2, _v, ops2: self.stmts(stmts, i + 1, tail, env2, ops2, k, nested), self.live_rest(stmts, i + 1, tail, k), toplevel=k.toplevel)
                 return self.stmts(e[1][0], 0, e[1][1], env, ops, rest, True)
+            if e[0] == "mcall" and e[2] == "copy_from_slice" and len(e[3]) == 1:
+                # `x[a..b].copy_from_slice(&y[c..d])`: both sub-slices are bounds-checked (target first), lengths must agree (else panic)
+                tgt = strip_paren(e[1])
+                if not (tgt[0] == "index" and strip_paren(tgt[2])[0] == "range"): self.fail("copy_from_slice target is not a sub-slice", ln)
+                v, lo, hi = self.slice_bounds(tgt, env, ops)
+                if not v.mut: self.fail("copy_from_slice into an immutable slice", ln)
+                t0 = self.tmp(); ops.append(("bind", t0, f"sliceR {v.lean} {lo.atom} {hi.atom}")); self.monadic_used = True
+                src = self.list_arg(e[3][0], env, ops, "copy_from_slice")
+                ops.append(("bind", v.lean, f"copySlice {v.lean} {lo.atom} {hi.atom} {src.atom}"))
+                return nxt()
             if e[0] in ("call", "mcall"):
                 self.ex(e, env, ops); return nxt()
             if e[0] == "assert":
@@ -1447,6 +1606,7 @@ class FnLower2(FnLower):
             # a local closure: inlined at every call.  Its captures must be immutable (never assigned anywhere in the function), so that
             # by-reference capture = the value at the definition = the value at the call
             if mut or pat in self.ever_assigned: self.fail(f"closure `{pat}` is mutable / re-assigned", ln)
+            if any(q[1] is None for q in i0[1]): self.fail(f"closure `{pat}` with untyped / pattern parameters bound to a local", ln)
             pnames = [q[0] for q in i0[1]]
             caps = {x for x in uses([i0[2][0], i0[2][1]]) if x in env and x not in pnames}
             a_in, d_in = assigned([i0[2][0], i0[2][1]])
@@ -1961,7 +2121,7 @@ class FnTranslate(FnLower2):
                 for y in x: find_closures(y)
             elif isinstance(x, tuple) and x:
                 if x[0] == "let" and isinstance(x[1], str) and x[4] is not None and strip_paren(x[4])[0] == "closure":
-                    c = strip_paren(x[4]); CLOSURE_CAPS[x[1]] = uses([c[2][0], c[2][1]]) - {q[0] for q in c[1]}
+                    c = strip_paren(x[4]); CLOSURE_CAPS[x[1]] = uses([c[2][0], c[2][1]]) - {q[0] for q in c[1] if isinstance(q[0], str)}
                 for y in x:
                     if isinstance(y, (tuple, list)): find_closures(y)
         find_closures([fn["body"][0], fn["body"][1]])
@@ -1983,6 +2143,9 @@ class FnTranslate(FnLower2):
         for (pn, pt, mut) in fn["params"]:
             lean = f"a{np}"; np += 1; self.namemap.append(f"{lean}={pn}")
             pt = self.rty(pt)
+            if pt[0] == "selfty" and fn["selfty"] == "Modulus" and pt[1] == "ref":
+                params.append(("mod",)); env[pn] = Var("mod", lean, rust=pn); env[pn].isref = True; self.binders.append(f"({lean} : Modulus)")
+                continue
             if pt[0] == "selfty":
                 st = self.tr.structs.get(fn["selfty"])
                 if st is None:
@@ -2011,6 +2174,8 @@ class FnTranslate(FnLower2):
                 params.append(("mod",)); env[pn] = Var("mod", lean, rust=pn); env[pn].isref = True; self.binders.append(f"({lean} : Modulus)")
             elif pt[0] == "ref" and not pt[1] and pt[2] == ("name", "MultiplyU64ModOperand"):
                 params.append(("mulop",)); env[pn] = Var("mulop", lean, rust=pn); env[pn].isref = True; self.binders.append(f"({lean} : MulOperand)")
+            elif pt[0] == "ref" and not pt[1] and pt[2][0] == "arr" and pt[2][1] == ("name", "Modulus") and pt[2][2] is None:
+                params.append(("modlist",)); env[pn] = Var("modlist", lean, rust=pn); self.binders.append(f"({lean} : List Modulus)")
             elif pt[0] == "ref" and not pt[1] and pt[2][0] == "arr" and pt[2][1] == ("name", "u64"):
                 w = const_index_width(body, pn)
                 if w is None and pt[2][2] is None:
@@ -2674,6 +2839,31 @@ TABLE_SCALING = [
     {"file": SV, "fn": "multiply_sub_plain", "model": "multiplySubPlain (Model/Scheme.lean)", "opaque": ["Plaintext", "ContextData"], "abstract": ABS_SCALING, "alias_abstract": True},
 ]
 
+# Gen/PolyFns.lean (phase 4b): src/util/polysmallmod.rs, the coefficient-wise polynomial arithmetic of the evaluator (one modulus: the
+# kernels; `_p`: all components of one polynomial; `_ps`: several polynomials) on flat `&[u64]` buffers
+PM = "src/util/polysmallmod.rs"
+POLY_PRELUDE = """/-- bounds-checked read of a read-only slice of structs (`&moduli[i]`) -/
+def idxT {α : Type} (l : List α) (i : Nat) : R α := match l[i]? with | some x => .ok x | none => .error .oob
+/-- `&x[lo..hi]`: panics unless `lo <= hi <= x.len()` -/
+def sliceR (l : List Nat) (lo hi : Nat) : R (List Nat) := if lo ≤ hi ∧ hi ≤ l.length then .ok ((l.drop lo).take (hi - lo)) else .error .oob
+/-- the buffer after a callee has worked on `&mut x[lo..hi]` and left `out` there -/
+def spliceR (l : List Nat) (lo hi : Nat) (out : List Nat) : List Nat := l.take lo ++ out ++ l.drop hi
+/-- `x[lo..hi].copy_from_slice(src)` (bounds already checked): panics unless the lengths agree -/
+def copySlice (l : List Nat) (lo hi : Nat) (src : List Nat) : R (List Nat) :=
+  if src.length = hi - lo then .ok (spliceR l lo hi src) else .error .refused
+"""
+def _pk(fn, **kw): return dict({"file": PM, "fn": fn, "lean": "poly_" + fn}, **kw)
+POLY_KERNELS = ["modulo", "negate", "negate_inplace", "add", "add_inplace", "sub", "sub_inplace", "add_scalar", "add_scalar_inplace",
+                "sub_scalar", "sub_scalar_inplace", "multiply_scalar", "multiply_scalar_inplace", "multiply_operand", "multiply_operand_inplace",
+                "dyadic_product", "dyadic_product_inplace", "negacyclic_shift", "negacyclic_multiply_mononomial",
+                "negacyclic_multiply_mononomial_inplace"]
+POLY_WRAPPED = ["modulo", "negate", "negate_inplace", "add", "add_inplace", "sub", "sub_inplace", "multiply_scalar", "multiply_scalar_inplace",
+                "multiply_operand", "multiply_operand_inplace", "dyadic_product", "dyadic_product_inplace", "negacyclic_shift",
+                "negacyclic_multiply_mononomial", "negacyclic_multiply_mononomial_inplace"]
+TABLE_POLY = [{"file": "src/modulus.rs", "fn": "reduce", "impl": "Modulus", "lean": "mod_reduce", "model": "barrett64"},
+              {"file": UB, "fn": "set_uint", "model": "(copy of a prefix)"}] + \
+             [_pk(k) for k in POLY_KERNELS] + [_pk(k + suf) for k in POLY_WRAPPED for suf in ("_p", "_ps")]
+
 FILES += [
     ("WordFns.lean", {"ns": "GenW", "imports": ["Heathcliff.Model.Word"], "table": TABLE, "prelude": PRELUDE}),
     ("NttFns.lean", {"ns": "GenN", "imports": ["Heathcliff.Gen.WordFns"], "table": TABLE_NTT, "opens": ["HC.GenW"]}),
@@ -2687,6 +2877,7 @@ FILES += [
         "InvalidPlainModulusBitCount": {"consts": {"HE_PLAIN_MOD_BIT_COUNT_MAX": UB, "HE_PLAIN_MOD_BIT_COUNT_MIN": UB}, "abstract": [("plain_modulus.value()", "t", "Nat")]},
                         }}),
     ("EvalFns.lean", {"ns": "GenE", "imports": ["Heathcliff.Gen.WordFns"], "table": TABLE_EVAL, "opens": ["HC.GenW"]}),
+    ("PolyFns.lean", {"ns": "GenP", "imports": ["Heathcliff.Gen.WordFns"], "table": TABLE_POLY, "opens": ["HC.GenW"], "prelude": POLY_PRELUDE}),
     ("ScalingFns.lean", {"ns": "GenS", "imports": ["Heathcliff.Gen.WordFns"], "table": TABLE_SCALING, "opens": ["HC.GenW"], "prelude": SCALING_PRELUDE}),
 ]
 
